@@ -207,8 +207,58 @@ func init() {
 		}
 	}
 	// sync.Mutex / sync.RWMutex: see locks.go
-	prim("(*sync/atomic.Value).Load", "AVLoad")
-	prim("(*sync/atomic.Value).Store", "AVStore")
+	// sync/atomic.Value: in atomic mode an action with an unknown result (interference); in a SEQUENTIAL proof the
+	// value is simply the content of the struct's only field
+	externModels["(*sync/atomic.Value).Load"] = func(e *Engine, st *State, fr *Frame, callee *ssa.Function, args []Val, rt types.Type, pos string, k callCont) {
+		if e.atomicMode() {
+			e.primitiveAction(st, fr, "AVLoad", args[0], args[1:], rt, k, nil)
+			return
+		}
+		e.obligationPanic(st, "nil", "atomic.Value.Load", Not(Eq(args[0].L[0], IntLit(0))))
+		v := e.loadLoc(st, e.locOf(args[0]))
+		v.T = rt
+		st.Assume(e.wellFormed(v, st.next))
+		k(st, fr, v)
+	}
+	externModels["(*sync/atomic.Value).Store"] = func(e *Engine, st *State, fr *Frame, callee *ssa.Function, args []Val, rt types.Type, pos string, k callCont) {
+		if e.atomicMode() {
+			e.primitiveAction(st, fr, "AVStore", args[0], args[1:], rt, k, nil)
+			return
+		}
+		e.obligationPanic(st, "nil", "atomic.Value.Store", Not(Eq(args[0].L[0], IntLit(0))))
+		e.obligationPanic(st, "store-nil", "atomic.Value.Store", Not(Eq(args[1].L[0], IntLit(0))))
+		e.storeLoc(st, e.locOf(args[0]), args[1])
+		k(st, fr, Val{T: types.NewTuple()})
+	}
+	// sync/atomic pointer operations in a sequential proof: plain memory operations
+	externModels["sync/atomic.LoadPointer"] = func(e *Engine, st *State, fr *Frame, callee *ssa.Function, args []Val, rt types.Type, pos string, k callCont) {
+		if e.atomicMode() {
+			panic(unsupported("sync/atomic pointer operations in atomic mode"))
+		}
+		e.obligationPanic(st, "nil", "atomic.LoadPointer", Not(Eq(args[0].L[0], IntLit(0))))
+		v := e.loadLoc(st, e.locOf(args[0]))
+		v.T = rt
+		k(st, fr, v)
+	}
+	externModels["sync/atomic.StorePointer"] = func(e *Engine, st *State, fr *Frame, callee *ssa.Function, args []Val, rt types.Type, pos string, k callCont) {
+		if e.atomicMode() {
+			panic(unsupported("sync/atomic pointer operations in atomic mode"))
+		}
+		e.obligationPanic(st, "nil", "atomic.StorePointer", Not(Eq(args[0].L[0], IntLit(0))))
+		e.storeLoc(st, e.locOf(args[0]), Val{T: e.locOf(args[0]).T, L: args[1].L})
+		k(st, fr, Val{T: types.NewTuple()})
+	}
+	externModels["sync/atomic.CompareAndSwapPointer"] = func(e *Engine, st *State, fr *Frame, callee *ssa.Function, args []Val, rt types.Type, pos string, k callCont) {
+		if e.atomicMode() {
+			panic(unsupported("sync/atomic pointer operations in atomic mode"))
+		}
+		e.obligationPanic(st, "nil", "atomic.CompareAndSwapPointer", Not(Eq(args[0].L[0], IntLit(0))))
+		loc := e.locOf(args[0])
+		cur := e.loadLoc(st, loc)
+		ok := Eq(cur.L[0], args[1].L[0])
+		e.storeLoc(st, loc, Val{T: loc.T, L: []Term{Ite(ok, args[2].L[0], cur.L[0])}})
+		k(st, fr, Val{T: rt, L: []Term{ok}})
+	}
 	prim("(*sync/atomic.Value).Swap", "AVSwap")
 	prim("(*sync/atomic.Value).CompareAndSwap", "AVCompareAndSwap")
 	prim("(*sync.Pool).Get", "PoolGet")
